@@ -136,6 +136,43 @@ def render(r, f, binders=0):
     return "(%s %s %s)" % (render(r, f[1], binders), r.choice(BIN[t]), render(r, f[2], binders))
 
 
+# precedence levels of the UPPAAL operator table (written down here, not read from the repository): all left associative
+LV = {"|": 1, ">": 1, "^": 1, "&": 2, "=": 3, "#": 3}
+LV_REL, LV_NOT, LV_ATOM = 4, 9, 10
+
+
+def level_of(f):
+    t = f[0]
+    if t == "I":
+        return LV_ATOM
+    if t == "C":
+        return 3 if f[1] in ("EQ", "NEQ") else LV_REL
+    if t == "!":
+        return LV_NOT
+    if t in ("A", "E"):
+        return 0
+    return LV[t]
+
+
+def render_min(r, f, binders=0):
+    """the same formula with only the parentheses the operator table requires"""
+    t = f[0]
+
+    def sub(c, parent_level, right):
+        txt = render_min(r, c, binders + (1 if t in ("A", "E") else 0))
+        lc = level_of(c)
+        return "(%s)" % txt if (lc < parent_level or (lc == parent_level and right)) else txt
+    if t == "I":
+        return render(r, f, binders)
+    if t == "C":
+        return "%s %s %s" % (render_side(r, f[2], binders), CMPS[f[1]], render_side(r, f[3], binders))
+    if t == "!":
+        return "%s%s" % (r.choice(["!", "not "]), sub(f[1], LV_NOT, False))
+    if t in ("A", "E"):
+        return "%s (k%d : int[0,1]) %s" % ("forall" if t == "A" else "exists", binders, render_min(r, f[1], binders + 1))
+    return "%s %s %s" % (sub(f[1], LV[t], False), r.choice(BIN[t]), sub(f[2], LV[t], True))
+
+
 def gen_leaf(r, clocky):
     if not clocky or r.random() < 0.25:
         if r.random() < 0.7:
@@ -343,6 +380,19 @@ def run(ctx):
     for n in range(n_random):
         d = r.choice([2, 3, 3, 4, 4, 5, 6, 7, 8])
         forms.append(gen_formula(r, d, "convex" if n % 3 else "any"))
+    # precedence shapes: two different connectives (and negation / quantifiers) over a clock atom and clock-free operands, always
+    # rendered with only the parentheses the operator table requires: what is accepted must not depend on how the text groups
+    force_min = set()
+    catoms = [("C", "LT", "CLOCK", "INT"), ("C", "GE", "INT", "CLOCK"), ("C", "LE", "DIFF", "INT")]
+    bleaf = [("I", "BOOL"), ("C", "LT", "INT", "INT")]
+    for o1 in BIN:
+        for o2 in BIN:
+            for ca in catoms:
+                b1, b2_ = r.choice(bleaf), r.choice(bleaf)
+                for f in ((o1, b1, (o2, b2_, ca)), (o1, (o2, ca, b1), b2_), (o1, (o2, b1, b2_), ca), (o1, ca, (o2, b1, b2_)),
+                          (o1, ("!", b1), (o2, ca, b2_)), (o1, b1, ("!", (o2, b2_, ca)))):
+                    force_min.add(len(forms))
+                    forms.append(f)
     # plain conjunctions of atoms (completeness direction)
     for n in range(600 if not ctx.thorough else 6000):
         k = r.randint(2, 7)
@@ -367,12 +417,14 @@ def run(ctx):
         forms += exc_forms[e] * 4
     same = re.compile(r"\(([\w\[\] -]+) (?:<|<=|==|!=|>=|>) \1\)")
     texts = []
-    for f in forms:
-        t = render(r, f)
+    for n, f in enumerate(forms):
+        # every third formula with only the parentheses the operator table requires
+        rend = render_min if (n % 3 == 2 or n in force_min) else render
+        t = rend(r, f)
         for _ in range(10):
             if not same.search(t):
                 break
-            t = render(r, f)     # avoid x ~ x: legal, but a poor witness
+            t = rend(r, f)     # avoid x ~ x: legal, but a poor witness
         texts.append(t)
     per_doc = 40
     docs = [texts[i:i + per_doc] for i in range(0, len(texts), per_doc)]
